@@ -29,6 +29,9 @@ impl ProofOfSignatureKnowledgeContribution for PokSignature {
         messages: &[ProofMessage<Scalar>],
         mut rng: impl RngCore + CryptoRng,
     ) -> CredxResult<Self> {
+        if public_key.y.len() < messages.len() {
+            return Err(Error::General("ProofCommitmentError"));
+        }
         let msgs = messages.iter().map(|m| m.get_message()).collect::<Vec<_>>();
 
         let r = Scalar::random(&mut rng);
